@@ -195,7 +195,7 @@ def mon_admissible(rec, P, info, overcommit, multi, single_op_known=None):
         for i in range(npools):
             if cpu[i] > pre.pools[i].free_cpu:
                 P("C08:cpu-oversold", f"tick {tr.t}: pool {i} assigned {cpu[i]} of {pre.pools[i].free_cpu} free CPUs")
-            if not overcommit and ram[i] > pre.pools[i].free_ram + 1e-6:
+            if not overcommit and ram[i] > pre.pools[i].free_ram + max(1e-6, 1e-12 * pre.pools[i].cap_ram):
                 P("C08:ram-oversold", f"tick {tr.t}: pool {i} assigned {ram[i]} of {pre.pools[i].free_ram} GB free")
         for cid, pool in tr.sus:
             ok = False
@@ -219,19 +219,19 @@ def mon_conservation(rec, P, info, overcommit):
             live_ram = sum(c.ram for c in p.active + p.suspending)
             if p.free_cpu + live_cpu != p.cap_cpu:
                 P("C03:cpu-not-conserved", f"tick {tr.t}: pool {i}: free {p.free_cpu} + live {live_cpu} != {p.cap_cpu}")
-            if abs(p.free_ram + live_ram - p.cap_ram) > 1e-6 * max(1.0, p.cap_ram):
+            if abs(p.free_ram + live_ram - p.cap_ram) > max(1e-6, 1e-12 * p.cap_ram):
                 P("C03:ram-not-conserved", f"tick {tr.t}: pool {i}: free {p.free_ram} + live {live_ram} != {p.cap_ram}")
             if p.free_cpu < 0:
                 P("C03:negative-free-cpu", f"tick {tr.t}: pool {i}: {p.free_cpu}")
-            if p.free_ram < -1e-6 and not overcommit:
+            if p.free_ram < -max(1e-6, 1e-12 * p.cap_ram) and not overcommit:
                 P("C03:negative-free-ram", f"tick {tr.t}: pool {i}: {p.free_ram}")
             use = sum(c.mem for c in p.active)
             for c in p.active:
                 if c.mem > c.ram * (1 + 1e-9):
                     P("C04:usage-above-allocation", f"tick {tr.t}: {c.cid} uses {c.mem} of {c.ram}")
-            if use > p.cap_ram + 1e-6:
+            if use > p.cap_ram + max(1e-6, 1e-12 * p.cap_ram):
                 P("C04:pool-usage-above-capacity", f"tick {tr.t}: pool {i}: {use} of {p.cap_ram}")
-            if abs(p.consumed - use) > 1e-6:
+            if abs(p.consumed - use) > max(1e-6, 1e-12 * p.cap_ram):
                 P("C04:reported-usage-wrong", f"tick {tr.t}: pool {i} reports {p.consumed}, containers use {use}")
 
 
